@@ -32,7 +32,16 @@ class SourceFile:
         return self._source.asttokens()
 
     def _token_to_code(self, tokens):
-        return self._format(tokenize.untokenize(tokens)).strip()
+        code = tokenize.untokenize(tokens)
+        if len(tokens) == 1 and tokens[0].type == tokenize.STRING:
+            # a lone string literal would be formatted like a module docstring,
+            # which strips/reindents its content and changes the value
+            prefix = "_ = "
+            code = self._format(prefix + code).strip()
+            if code.startswith(prefix):
+                code = code[len(prefix) :]
+            return code
+        return self._format(code).strip()
 
     def _value_to_code(self, value):
         return self._token_to_code(value_to_token(value))
